@@ -64,3 +64,22 @@ Theorem C17_certified_matrices_of_every_size : forall rec alg sp ws m n M rc v s
   (rc = 0 /\ balanced_bf m n M = true /\ v = 1 /\ sub = None).
 Proof. exact BalancedCertProofs.judge_balanced_cert_sound. Qed.
 Print Assumptions C17_certified_matrices_of_every_size.
+
+(* ---------- the judge accepts EXACTLY the records that satisfy its specification: besides soundness (above) also completeness,
+   i.e. a record of a correct answer is never rejected (JudgeComplete1.v) ---------- *)
+From Cmr Require JudgeComplete1.
+Theorem C17_judge_balanced_accepts_exactly_the_specification :
+    forall (rec : list Z) (alg : Z) (sp ws : bool) (m n : nat) (M : mat) (rc v : Z)
+    (sub : option (list nat * list nat)) (rest : list Z),
+    BalancedProofs.balanced_input rec = Some (alg, sp, ws, (m, n, M), rc, v, sub, rest) ->
+    SpModel.judge_balanced rec = 0%Z <-> JudgeComplete1.balanced_spec alg ws m n M rc v sub.
+Proof. exact JudgeComplete1.judge_balanced_iff. Qed.
+Print Assumptions C17_judge_balanced_accepts_exactly_the_specification.
+Theorem C17_judge_balanced_cert_accepts_exactly_the_specification :
+    forall (rec : list Z) (alg : Z) (sp ws : bool) (m n : nat) (M : mat) (rc v : Z)
+    (sub : option (list nat * list nat)) (w : GraphModel.witness) (rest : list Z),
+    BalancedCertModel.balanced_cert_input rec = Some (alg, sp, ws, (m, n, M), rc, v, sub, w, rest) ->
+    BalancedCertModel.judge_balanced_cert rec = 0%Z <->
+    JudgeComplete1.balanced_cert_spec alg m n M rc v sub w.
+Proof. exact JudgeComplete1.judge_balanced_cert_iff. Qed.
+Print Assumptions C17_judge_balanced_cert_accepts_exactly_the_specification.
